@@ -13,6 +13,10 @@ CHECKS = {
          "reference function (executable model) + total replay: every enumerated ResolveResult is run through the real Targets and compared with the model; byte-level snapshot oracle for purity",
          "All ResolveResults over a small but complete alphabet (1 record: full per-record domain; 0,2,3 records: reduced domain) x address lists x Additional maps x ports x 6 networks x early-termination points are evaluated on the real Targets and compared with an executable reference; a snapshot of every reachable byte including spare slice capacity is compared before/after. Every model trace is replayed against the implementation.",
          "reference function written from the property text/RFC 9460; ALPN compared as a set; records naming a target without known addresses may contribute nothing or their hints", "§3 C15"),
+ "C13": ("exploration", "E1 enum",
+         "exhaustive small-scope enumeration of messages; differential comparison with an independent RFC 1035/9460 codec (dnsref) and x/net dnsmessage in both directions",
+         "All header flag combinations, a name pool covering 0/1/2/127 labels and label lengths 1/63 in every name position, every subset of HTTPS parameters, OPT option lists, every message with <=2 records per section over record pools (package-built and reference-built, uncompressed and maximally compressed), extended RCODE grid and AddPadding for every question-name length 1..253 x OPT states are enumerated completely; each case is round-tripped and cross-decoded by two independent codecs.",
+         "trusts dnsref and x/net dnsmessage v0.42.0; HTTPS parameter keys limited to 1..6 ascending (what dns.HTTPS can represent)", "§3 C13"),
 }
 
 NOT_YET = {}
